@@ -49,7 +49,8 @@ const modPath = "github.com/ilius/libgostarcal"
 
 var srcUnits = []srcUnit{
 	{dir: "utils", path: modPath + "/utils", lean: "Utils", pre: "utils",
-		funcs: []string{"Mod", "Div", "Divmod", "IntMin", "GetHmsBySeconds", "MonthListIsValid", "DayListIsValid", "WeekDayListIsValid"}},
+		funcs: []string{"Mod", "Div", "Divmod", "IntMin", "GetHmsBySeconds", "MonthListIsValid", "DayListIsValid", "WeekDayListIsValid",
+			"bisectLeftRange", "BisectLeft"}},
 	{dir: ".", path: modPath, lean: "Lib", pre: "lib",
 		funcs: []string{"GetTotalSeconds", "GetFloatHour", "FloatHourToHMS", "toUint8", "HMS.IsValid", "Date.IsValid"}},
 	{dir: "interval", path: modPath + "/interval", lean: "Interval", pre: "interval",
@@ -76,7 +77,7 @@ var srcUnits = []srcUnit{
 // functions the translator does not read but maps to a definition of lean/Starcal/SrcExt.lean
 // (hand-written, tied to the code by the correspondence check only): qualified Go name -> Lean name
 var srcExternals = map[string]string{
-	modPath + "/utils.BisectLeft":                      "SrcExt.utils_BisectLeft",
+	"sort.Search": "SrcExt.sort_Search",
 	modPath + "/cal_types/gregorian.calTypeImp.IsLeap": "SrcExt.gregorian_IsLeap",
 	modPath + "/cal_types/gregorian.calTypeImp.ToJd":   "SrcExt.gregorian_ToJd",
 	modPath + "/cal_types/gregorian.calTypeImp.JdTo":   "SrcExt.gregorian_JdTo",
@@ -843,11 +844,42 @@ func (t *fnTrans) expr(e ast.Expr) lexpr {
 			bail("index into %s", xt)
 		}
 		return lexpr{"(GoSem.idx " + t.val(x.X) + " " + t.val(x.Index) + ")", true}
+	case *ast.FuncLit:
+		// a closure handed to an external (sort.Search): parameters of integer type, one result, a body in the
+		// fragment; what it captures are the enclosing function's immutable bindings (values in the translation)
+		if !t.inCallArg {
+			bail("function literal outside a call")
+		}
+		var ps []string
+		for _, f := range x.Type.Params.List {
+			lt := t.leanType(info.Types[f.Type].Type)
+			for _, id := range f.Names {
+				ps = append(ps, "("+t.nameOf(info.Defs[id])+" : "+lt+")")
+			}
+		}
+		if x.Type.Results == nil || len(x.Type.Results.List) != 1 {
+			bail("function literal with other than one result")
+		}
+		rlt := t.leanType(info.Types[x.Type.Results.List[0].Type].Type)
+		set := map[types.Object]bool{}
+		t.assigned(x.Body.List, map[types.Object]bool{}, set)
+		if len(set) > 0 {
+			bail("function literal that assigns a captured variable")
+		}
+		savedArg, savedFold, savedErr, savedOnly, savedInout, savedRes := t.inCallArg, t.inFold, t.errRes, t.errOnly, t.inout, t.resType
+		t.inCallArg, t.inFold, t.errRes, t.errOnly, t.inout, t.resType = false, "", false, false, nil, rlt
+		body := t.stmts(x.Body.List, "", 3, 1)
+		t.inCallArg, t.inFold, t.errRes, t.errOnly, t.inout, t.resType = savedArg, savedFold, savedErr, savedOnly, savedInout, savedRes
+		return lexpr{"(fun " + strings.Join(ps, " ") + " => (do\n" + body + "      : Option " + rlt + "))", false}
 	case *ast.SliceExpr:
-		if x.Slice3 || (x.Low != nil && x.High != nil) {
-			bail("slice expression with two or three indices")
+		if x.Slice3 {
+			bail("slice expression with three indices")
 		}
 		_ = t.leanType(info.Types[x.X].Type)
+		if x.Low != nil && x.High != nil {
+			// s[lo:hi] (only up to the length: Go allows hi up to the capacity)
+			return lexpr{"(GoSem.sliceA " + t.val(x.X) + " " + t.val(x.Low) + " " + t.val(x.High) + ")", true}
+		}
 		if x.High != nil {
 			// s[:n]: Go allows n up to cap(s); the translation only up to len(s) (`none` beyond)
 			return lexpr{"(GoSem.takeA " + t.val(x.X) + " " + t.val(x.High) + ")", true}
